@@ -19,12 +19,12 @@ func init() {
 			"1..3 clients strictly one operation at a time: Add (0..4 attributes, 1..3 values), Modify of user entries (add-value on new and existing attributes, delete-attribute - bare, or spelling out all the values the attribute has -, replace of an existing attribute, several " +
 			"changes per request - now and then none at all -, multi-valued), Add and Delete of 4 further DNs below the groups base (cn=h<a..d>,ou=groups,..., read back by a search based at the entry's own DN), values of 127..70000 bytes now and then, Delete (users and groups, present and missing), Search (people base with (cn=X); base = entry DN; groups base), SetUsers/SetGroups (model reset with fresh objects, or with entries built by the library's own NewUsers(WithMembersOf) helper, which shares one memberOf slice between all users), and searches with unusual parameters (typesOnly, limits, attribute lists) whose results are not asserted but which must not change the store. " +
 			"A reference model (DN -> attribute -> values) is stepped alongside; after every mutating step the affected entry and one other pool entry are searched and compared, and at the end of each history every pool DN. " +
-			"Values added through add-value modifications may read back plain or BER-wrapped (a well-formed octet string, judged by the harness's own parser); values set through Add, Set* and replace must read back plainly. The user pool has two DNs with a shared parenthesised remark and one written with a blank after its first comma, the group pool one DN outside the groups base; an attribute returned twice in one entry is a violation; 30% of the people searches write their base in another case; fill-and-drain histories begin by deleting a group while there is no user; every history ends with a listing of the people base (filter (ou=people)) that must return every user of the model once and nothing else. distinct_nontrivial = distinct operation-kind sequences (histories) containing at least one mutation followed by a search",
+			"Values added through add-value modifications may read back plain or BER-wrapped (a well-formed octet string, judged by the harness's own parser); values set through Add, Set* and replace must read back plainly. The user pool has two DNs with a shared parenthesised remark and one written with a blank after its first comma, the group pool one DN outside the groups base; an attribute returned twice in one entry is a violation; 30% of the people searches write their base in another case; fill-and-drain histories begin by deleting a group while there is no user; every history ends with a listing of the people base (filter (ou=people), every second time written as the compound filter (|(ou=people)(description=<a long value nothing has>))) that must return every user of the model once and nothing else. distinct_nontrivial = distinct operation-kind sequences (histories) containing at least one mutation followed by a search",
 		Assume: []string{"not asserted (the statement is silent): modify of group entries, add of a DN that exists as a group, replace of a missing attribute, the result code of an empty search, attribute order within an entry"},
 		Phases: func(tier string, seed int64) []Phase {
 			return []Phase{{Name: "histories-plain", Run: func(c *Ctx) { c20Run(c, "plain") }}, {Name: "histories-tls", Run: func(c *Ctx) { c20Run(c, "tls") }}}
 		},
-		MinObserved: []string{"steps", "searches_compared", "op/add", "op/modify", "op/delete", "op/set", "searches_with_odd_parameters", "searches_based_at_a_dn_below_the_groups_base", "searches_for_dns_with_parentheses", "setusers_with_the_same_objects_again", "histories_steps_with_token_groups_configured", "modifies_without_changes_of_a_missing_entry", "delete_attribute_changes_that_list_all_the_values", "fill_and_drain_histories", "groups_deleted_while_there_was_no_user", "listings_of_the_people_base_with_several_users", "people_searches_whose_base_is_written_in_another_case"},
+		MinObserved: []string{"steps", "searches_compared", "op/add", "op/modify", "op/delete", "op/set", "searches_with_odd_parameters", "searches_based_at_a_dn_below_the_groups_base", "searches_for_dns_with_parentheses", "setusers_with_the_same_objects_again", "histories_steps_with_token_groups_configured", "modifies_without_changes_of_a_missing_entry", "delete_attribute_changes_that_list_all_the_values", "fill_and_drain_histories", "groups_deleted_while_there_was_no_user", "listings_of_the_people_base_with_several_users", "people_searches_whose_base_is_written_in_another_case", "listings_of_the_people_base_with_a_compound_filter"},
 	})
 }
 
@@ -655,7 +655,13 @@ func c20History(c *Ctx, td interface {
 	// ... and the people base listed as a whole: a filter that names something every user DN contains returns every
 	// user there is, each once (the directory matches a filter element against the DN)
 	{
-		res, entries, err := k.roundTrip(sber.Search{Base: []byte(c20People), Scope: 2, Filter: sber.EqFilter("ou", "people"), Attrs: [][]byte{}}.Node(), sber.AppSearchResultDone)
+		listFilter := sber.EqFilter("ou", "people")
+		if h%2 == 1 {
+			// every second listing writes the same question as a compound filter: (|(ou=people)(description=<nothing has this>))
+			listFilter = sber.Cons(sber.Context, 1, sber.EqFilter("ou", "people"), sber.EqFilter("description", "nobody-carries-this-description-anywhere-below-the-people-base-of-this-directory"))
+			c.Count("listings_of_the_people_base_with_a_compound_filter", 1)
+		}
+		res, entries, err := k.roundTrip(sber.Search{Base: []byte(c20People), Scope: 2, Filter: listFilter, Attrs: [][]byte{}}.Node(), sber.AppSearchResultDone)
 		if err != nil {
 			fail("search got no well-formed answer", err.Error())
 			return false
